@@ -189,11 +189,11 @@ theorem ext_failFrags (S : Strs) (refs : List FragRef) (s : State) : Ext s (fail
             exact ext_updReq s _ _ (fun _ => ⟨rfl, rfl⟩)
     · exact Ext.refl s
 
-theorem bsame_expire (S : Strs) (s : State) : BSame s (expire S s) := by
+theorem bsame_expire (S : Strs) (s : State) (n : Nat) : BSame s (expire S s n) := by
   unfold expire
   dsimp only
-  show (List.foldl _ s s.timeouts).backends = s.backends
-  generalize s.timeouts = ts
+  show (List.foldl _ s ((liveDeadlines s).take n)).backends = s.backends
+  generalize (liveDeadlines s).take n = ts
   induction ts generalizing s with
   | nil => rfl
   | cons f fs ih =>
@@ -209,11 +209,11 @@ theorem bsame_expire (S : Strs) (s : State) : BSame s (expire S s) := by
           · exact BSame.trans (b := s.updReq _ _) rfl (bsame_flushClient _ _)
     · rfl
 
-theorem ext_expire (S : Strs) (s : State) : Ext s (expire S s) := by
+theorem ext_expire (S : Strs) (s : State) (n : Nat) : Ext s (expire S s n) := by
   unfold expire
   dsimp only
-  refine Ext.trans (b := List.foldl _ s s.timeouts) ?_ (ext_of_same _ _ ⟨rfl, rfl⟩)
-  generalize s.timeouts = ts
+  refine Ext.trans (b := List.foldl _ s ((liveDeadlines s).take n)) ?_ (ext_of_same _ _ ⟨rfl, rfl⟩)
+  generalize (liveDeadlines s).take n = ts
   induction ts generalizing s with
   | nil => exact Ext.refl s
   | cons f fs ih =>
@@ -832,7 +832,7 @@ theorem frame_step (T : Tables) (S : Strs) (cfg : Cfg) (slotFn : Bytes → Nat) 
     | runTasks => exact frame_runTasks S cfg s
     | backendBytes b chunk => exact frame_backendBytes T S cfg slotFn s b chunk
     | backendClose b => exact frame_backendClose S s b
-    | expire => exact frame_of_bsame _ _ (bsame_expire S s) (ext_expire S s)
+    | expire n => exact frame_of_bsame _ _ (bsame_expire S s n) (ext_expire S s n)
     | poolRemove p => exact frame_of_bsame _ _ (bsame_poolRemove s p) (ext_of_same _ _ (same_poolRemove s p))
 
 theorem dinv_run (T : Tables) (S : Strs) (cfg : Cfg) (slotFn : Bytes → Nat) (es : List Event) (s : State) (h : DInv s) :
@@ -1191,7 +1191,7 @@ theorem binv_step (T : Tables) (S : Strs) (cfg : Cfg) (slotFn : Bytes → Nat) (
     | runTasks => exact binv_runTasks S cfg s hi
     | backendBytes b chunk => exact binv_backendBytes T S cfg slotFn s b chunk hi
     | backendClose b => exact binv_backendClose S s b hi
-    | expire => exact binv_bs (bsame_expire S s) hi
+    | expire n => exact binv_bs (bsame_expire S s n) hi
     | poolRemove p => exact binv_bs (bsame_poolRemove s p) hi
 
 theorem binv_run (T : Tables) (S : Strs) (cfg : Cfg) (slotFn : Bytes → Nat) (es : List Event) (s : State) (h : BInv s) :
